@@ -190,7 +190,8 @@ class Run:
                 for vm, st in cls.get("set", {}).items():
                     p[f"set_state_images_{vm}"] = st
                 for vm, mode in cls.get("unset", {}).items():
-                    p[f"unset_mode_images_{vm}"] = mode
+                    # removal can be requested with a type-specific key or with the object-suffixed generic key
+                    p[f"unset_mode_{vm}" if cls.get("unset_style") == "generic" else f"unset_mode_images_{vm}"] = mode
                 if cls.get("root_of"):
                     p["object_root"] = self.imgobjs[cls["root_of"]].id
                     if cls.get("create_permanent"):
@@ -736,6 +737,8 @@ def gen_spec(rng, profile="mixed"):
                  "parents": [[pname, vm]], "prefix": prefix(depth - d, vm)}
             if removable and rng.random() < 0.5:
                 c["unset"] = {vm: rng.choice(["fi", "fi", "ff", "ri"])}
+                if rng.random() < 0.4:
+                    c["unset_style"] = "generic"
             classes.append(c)
             chain.append((c["name"], st))
         chains[vm] = chain
